@@ -12,9 +12,9 @@
      g_at r / i_at r   = same for 3 / 5 with the emptiness test of the C++ loops spelled out
      sheet_code r      = E / B / blank from the ladder list
      plain r           = no helix and no sheet code                                               *)
-From Coq Require Import List Arith Bool String Lia.
+From Coq Require Import List Arith Bool String Lia Sorting.Permutation.
 Import ListNotations.
-Require Import MD.Gen.DsspTables MD.Dssp.Model MD.Dssp.Proofs MD.Dssp.Rules MD.Dssp.Bridges MD.Dssp.Layer.
+Require Import MD.Gen.DsspTables MD.Dssp.Model MD.Dssp.Proofs MD.Dssp.Rules MD.Dssp.Bridges MD.Dssp.Layer MD.Dssp.Merge.
 Local Open Scope string_scope.
 Local Open Scope nat_scope.
 
@@ -107,14 +107,76 @@ Theorem bridge_records_complete : forall n ch skip hb ij, In ij (bridge_pairs n)
 Proof. exact initial_bridges_complete. Qed.
 Print Assumptions bridge_records_complete.
 
-(* PARTIAL.  Full statement: "r is E iff r lies in a ladder of >= 2 consecutive bridges after bulge
-   merging, B iff it lies only in isolated bridges", with the ladder set characterised from the bridge
-   test alone.  Proved: the statement for H-bond patterns in which no two records qualify for bulge
-   merging (hypothesis below), together with strand_marking and bridge_records_are_ladders for the
-   general case, and bridge_records_complete.  Missing: a declarative characterisation of the merged
-   ladder list (order-dependent absorption in the "Extend ladders" loop); exercised by the
-   correspondence only. *)
-Theorem strand_vs_bridge_partial : forall n ch skip hb r, r < n ->
+(* ---- bulge merging, for ALL ladder sets --------------------------------------------------------
+   The "Extend ladders" loop is greedy: the records are scanned in sorted order, the current record
+   absorbs, in order, every later record that satisfies the bulge rule against the ladder ACCUMULATED SO
+   FAR, absorbed records are erased, then the next surviving record becomes current.
+   [ladder_groups] names the outcome: the members of every final ladder record, in order. *)
+
+(* the final ladder list is the list of merged groups *)
+Theorem ladders_are_merged_groups : forall n ch skip hb,
+  ladders n ch skip hb = map merge_group (ladder_groups n ch skip hb).
+Proof. exact ladders_are_groups. Qed.
+Print Assumptions ladders_are_merged_groups.
+
+(* the groups partition the un-merged records *)
+Theorem merge_groups_partition : forall n ch skip hb,
+  Permutation (List.concat (ladder_groups n ch skip hb)) (initial_bridges n ch skip hb).
+Proof. exact ladder_groups_partition. Qed.
+Print Assumptions merge_groups_partition.
+
+(* how they arise: the first group is the first record plus what a scan of the remaining records absorbs
+   (Scan: every absorbed record satisfied the bulge rule against the ladder accumulated when it was
+   examined, every record passed over failed it at that moment); the other groups are the groups of
+   what was passed over *)
+Theorem merge_groups_scan : forall ch f b rest,
+  exists ab lf, groups (S f) ch (b :: rest) = (b :: ab) :: groups f ch lf /\ Scan ch [b] rest ab lf.
+Proof. exact groups_scan. Qed.
+Print Assumptions merge_groups_scan.
+
+(* the bulge rule in the published form: same type, each strand within one chain, the candidate's i
+   strand starts after the ladder's with at most 4 residues in between, its j strand continues the
+   ladder's in the direction of the type, and the gaps are (<= 4 on j and <= 1 on i) or (<= 1 on j) *)
+Theorem bulge_rule : forall ch a b,
+  let ibi := front (b_i a) in let iei := back (b_i a) in
+  let jbi := front (b_j a) in let jei := back (b_j a) in
+  let ibj := front (b_i b) in let iej := back (b_i b) in
+  let jbj := front (b_j b) in let jej := back (b_j b) in
+  should_merge ch a b = true <->
+  b_type a = b_type b /\
+  chain_at ch (Nat.min ibi ibj) = chain_at ch (Nat.max iei iej) /\
+  chain_at ch (Nat.min jbi jbj) = chain_at ch (Nat.max jei jej) /\
+  gap_le iei ibj 4 /\ ~ (ibj <= iei /\ ibi <= iej) /\
+  ((b_type a = BRIDGE_PARALLEL /\ jbi < jbj /\
+      ((gap_le jei jbj 4 /\ gap_le iei ibj 1) \/ gap_le jei jbj 1)) \/
+   (b_type a <> BRIDGE_PARALLEL /\ jbj < jbi /\
+      ((gap_le jej jbi 4 /\ gap_le iei ibj 1) \/ gap_le jej jbi 1))).
+Proof. exact should_merge_spec. Qed.
+Print Assumptions bulge_rule.
+
+(* the accumulated ladder the rule is tested against is determined by the first and the last member *)
+Theorem merged_ladder_ends : forall c r, Forall strands_nonempty (c :: r) ->
+  let m := merge_group (c :: r) in let l := last r c in
+  b_type m = b_type c /\
+  (front (b_i m), back (b_i m)) = ends_i c l /\ (front (b_j m), back (b_j m)) = ends_j c l.
+Proof. exact group_ends. Qed.
+Print Assumptions merged_ladder_ends.
+
+(* strand_vs_bridge, FULL (every ladder set, any number of merges per ladder): r is E iff it lies in the
+   span of a merge group that is a ladder (two or more members, or one record of two or more bridges) --
+   the span runs from the first residue of the first member to the last residue of the last member on
+   each strand, bulge residues included; r is B iff it lies only in spans of isolated bridges *)
+Theorem strand_vs_bridge : forall n ch skip hb r, r < n ->
+  (sheet_code n ch skip hb r = SS_STRAND <->
+     exists g, In g (ladder_groups n ch skip hb) /\ span g r = true /\ group_is_ladder g) /\
+  (sheet_code n ch skip hb r = SS_BETABRIDGE <->
+     (exists g, In g (ladder_groups n ch skip hb) /\ span g r = true) /\
+     ~ exists g, In g (ladder_groups n ch skip hb) /\ span g r = true /\ group_is_ladder g).
+Proof. exact sheet_rule_all. Qed.
+Print Assumptions strand_vs_bridge.
+
+(* special case without bulges: membership in the records themselves *)
+Theorem strand_vs_bridge_merge_free : forall n ch skip hb r, r < n ->
   (forall a b, In a (initial_bridges n ch skip hb) -> In b (initial_bridges n ch skip hb) ->
                should_merge ch a b = false) ->
   (sheet_code n ch skip hb r = SS_STRAND <->
@@ -123,7 +185,7 @@ Theorem strand_vs_bridge_partial : forall n ch skip hb r, r < n ->
      (exists b, In b (initial_bridges n ch skip hb) /\ member b r) /\
      ~ exists b, In b (initial_bridges n ch skip hb) /\ 2 <= List.length (b_i b) /\ member b r).
 Proof. exact sheet_rule_merge_free. Qed.
-Print Assumptions strand_vs_bridge_partial.
+Print Assumptions strand_vs_bridge_merge_free.
 
 (* incomplete residues: never a member of a bridge or ladder, never an end of an n-turn ... *)
 Theorem skip_never_pairs : forall n ch skip hb b x, In b (ladders n ch skip hb) ->
@@ -214,6 +276,8 @@ Example bulge_example :
   dssp_chars 18 (repeat 0 18) (repeat false 18) ex_bulge_hb (repeat false 18) =
   [" "; " "; "E"; "E"; "E"; "E"; "E"; "T"; "T"; "T"; "E"; "E"; "E"; "E"; "E"; "E"; " "; " "] /\
   map (fun b => (b_i b, b_j b)) (ladders 18 (repeat 0 18) (repeat false 18) ex_bulge_hb) =
-  [([2; 3; 4; 5; 6], [10; 11; 13; 14; 15])].
-Proof. split; vm_compute; reflexivity. Qed.
+  [([2; 3; 4; 5; 6], [10; 11; 13; 14; 15])] /\
+  map (map (fun b => (b_i b, b_j b))) (ladder_groups 18 (repeat 0 18) (repeat false 18) ex_bulge_hb) =
+  [[([2; 3; 4], [13; 14; 15]); ([5; 6], [10; 11])]].
+Proof. repeat split; vm_compute; reflexivity. Qed.
 Print Assumptions bulge_example.
